@@ -3,7 +3,7 @@ import random
 from .. import core, impl, gen, graphlab as GL, linelab as LL, fieldlab as FL, grammar as GR
 from ..core import cstr, clist, copt
 
-DEPS = ['Tables', 'Regexes', 'K_cigar', 'K_numarr', 'K_levels']
+DEPS = ['Tables', 'Regexes', 'K_cigar', 'K_numarr', 'K_levels', 'K_clone']
 MODEL_TARGETS = ['Corr/C18c.vo', 'Corr/Linec.vo']
 IMPORTS = "From GfaV Require Import Base.Py Model.Codec Model.Levels Corr.C18c."
 ASSUMPTIONS = ["assigned values are strings (the encoded form); fields that hold references are assigned on free-standing lines only",
